@@ -170,7 +170,13 @@ def main():
                      "kind_free_text": "explicit TLA+ specifications under /verif/spec checked by TLC 1.8; spec->code case/behaviour replay and code->spec trace validation drivers under /verif/harness"}],
         "checks": checks,
         "not_applicable": na,
-        "notes": "See DESIGN.md. known_findings.json lists repaired ('fixed:') and recorded defects.",
+        "notes": ("See DESIGN.md (section 10 = as built). known_findings.json lists repaired ('fixed:') and recorded defects. "
+                  "Beyond the listed properties the specification also covers the CoAP connection life-cycle, the zeroconf controller "
+                  "life-cycle, the BLE session life-cycle, config-number / accessory-database / cache coherence and the BLE global state "
+                  "number (spec/coap, spec/discovery/ZcLifecycle, spec/ble/BleSession, spec/cfgcache, spec/ble/BleGsn); these extensions run "
+                  "through the same CLI (./check EXTCOAP | EXTZC | EXTBLE | EXTCFG | EXTGSN [--tier thorough]) and write evidence/EXT*.json, "
+                  "but are not entries of 'checks' because the property list is fixed. seeded/run.py re-runs the checks against the kept "
+                  "seeded defects, seeded/run_refactorings.py against behaviour-preserving patches (no-alarm test)."),
     }
     with open(os.path.join(VERIF, "MANIFEST.json"), "w") as f:
         json.dump(man, f, indent=1)
